@@ -45,11 +45,13 @@ func Compact(buf *bytes.Buffer, src []byte, escape bool) error {
 }
 
 func compactAndWrite(buf *bytes.Buffer, dst []byte, src []byte, escape bool) error {
+	// dst holds what buf already contains: only what compact appends is new
+	start := len(dst)
 	dst, err := compact(dst, src, escape)
 	if err != nil {
 		return err
 	}
-	if _, err := buf.Write(dst); err != nil {
+	if _, err := buf.Write(dst[start:]); err != nil {
 		return err
 	}
 	return nil
